@@ -355,7 +355,12 @@ func genBlocks(r *core.Rand) (string, bool) {
 			g.add("cps")
 		case 4:
 			g.begin()
-			g.add("pr:w:%d", g.maxFile*int(r.Range(1, 3)))
+			// around the size estimate when the last file holds just the last block
+			last := 0
+			if len(g.blocks) > 0 {
+				last = g.blkLen[g.blocks[len(g.blocks)-1]] + 12 + int(r.Range(-1, 1))
+			}
+			g.add("pr:w:%d", g.maxFile*int(r.Range(1, 3))+int(r.Pick(0, int64(last))))
 			if r.Chance(1, 4) {
 				g.add("pr:w:%d", g.maxFile*int(r.Range(1, 3)))
 			}
